@@ -678,6 +678,10 @@ impl Check for C13 {
 #[derive(Clone, Debug, Serialize, Deserialize)]
 pub enum C14Mode {
     Crash,
+    /// crash points on a destination that takes at most `cap` bytes per write call: every piece of a
+    /// split write is an operation of its own, so images between the pieces of the final header exist
+    /// (an image may then advertise zoom levels that it refuses to serve; serving them is the violation)
+    CrashCapped { cap: usize },
     Fault(FaultMode),
     /// refused input: the destination after the Err return
     Refused(Viol),
@@ -1001,6 +1005,12 @@ impl Check for C14 {
                     v.push(C14Case { bed, nchrom: 2, items: 1500, opts: o.clone(), mode: C14Mode::Sched, part: Some((p, 8)) });
                 }
             }
+            // crash points between the pieces of split writes (destination takes 40 / 100 bytes per call)
+            for o in c14_opts(true) {
+                for cap in [40usize, 100] {
+                    v.push(C14Case { bed, nchrom: 2, items: 3, opts: o.clone(), mode: C14Mode::CrashCapped { cap }, part: None });
+                }
+            }
             // the Python writers with a source that fails after 0 .. n tuples, and one that does not
             for fail_after in (0..=6usize).map(Some).chain([None]) {
                 v.push(C14Case { bed, nchrom: 2, items: 3, opts: Opts::base(), mode: C14Mode::PyWrite { fail_after }, part: None });
@@ -1087,8 +1097,15 @@ impl Check for C14 {
                     }
                 }
             }
-            C14Mode::Crash => {
+            C14Mode::Crash | C14Mode::CrashCapped { .. } => {
                 let sink = Sink::recording();
+                let capped = if let C14Mode::CrashCapped { cap } = &c.mode {
+                    sink.0.lock().unwrap().max_write = Some(*cap);
+                    out.count("crash_histories_on_a_short_writing_destination", 1);
+                    true
+                } else {
+                    false
+                };
                 match c14_run_write(c, sink.clone()) {
                     Ok(Ok(())) => {}
                     other => {
@@ -1130,7 +1147,19 @@ impl Check for C14 {
                                 wrong.push(format!("chromosome table {:?} vs {:?}", s.chroms, full.chroms));
                             }
                             if s.zoom_levels != full.zoom_levels {
-                                wrong.push(format!("zoom levels {:?} vs {:?}", s.zoom_levels, full.zoom_levels));
+                                if !capped {
+                                    wrong.push(format!("zoom levels {:?} vs {:?}", s.zoom_levels, full.zoom_levels));
+                                } else {
+                                    // between the pieces of a split header write the zoom directory is
+                                    // still blank: whatever it advertises must be refused, not served
+                                    out.count("images_advertising_unfinished_zoom_levels", 1);
+                                    for (i, d) in s.zooms.iter().enumerate() {
+                                        match d {
+                                            Ok(v) => wrong.push(format!("the image advertises zoom levels {:?} (complete file: {:?}) and answers zoom query {} with {} records instead of refusing it", s.zoom_levels, full.zoom_levels, i, v.len())),
+                                            Err(_) => out.count("answers_refused_on_accepted_image", 1),
+                                        }
+                                    }
+                                }
                             }
                             for (i, d) in s.data.iter().enumerate() {
                                 if let Ok(v) = d {
